@@ -56,7 +56,7 @@ Section Steps.
     { apply (run_eat_first_hit [(SLt, BLt); (SLtEq, BLe); (SGt, BGt); (SGtEq, BGe)] KIn BIn []);
         [reflexivity|reflexivity|discriminate]. }
     cbv beta iota. change (stoken_eqb KIn KIn) with true. cbv iota.
-    destruct (nosfx_inv c Hn) as (H1 & H2 & _ & _).
+    destruct (nosfx_inv c Hn) as (H1 & H2 & _).
     apply run_if_true.
     { intros s Es. unfold toks_of in Es. injection Es as Ec Er.
       unfold peek_simple, peek_tok. rewrite Ec, Er. cbn [nth_error]. rewrite H1, H2. reflexivity. }
@@ -81,6 +81,13 @@ Fixpoint core_expr (e : expr) : bool :=
   | EBinary _ l _ r => core_expr l && core_expr r
   | EInSuper _ x _ => core_expr x
   | EField _ x _ => core_expr x
+  | EIndex _ x i => core_expr x && core_expr i
+  | ESlice _ x a b c =>
+      core_expr x && match a with Some y => core_expr y | None => true end &&
+      match b with Some y => core_expr y | None => true end &&
+      match c with Some y => core_expr y | None => true end
+  | ECall _ f args _ =>
+      core_expr f && forallb (fun a => match a with APositional y | ANamed _ y => core_expr y end) args
   | EError _ x | EImport _ x | EImportStr _ x | EImportBin _ x => core_expr x
   | EIf _ c t o => core_expr c && core_expr t && match o with Some x => core_expr x | None => true end
   | EAssert _ (MkAssert _ c m) body =>
@@ -88,18 +95,66 @@ Fixpoint core_expr (e : expr) : bool :=
   | _ => false
   end.
 
-(* the first printed token of a covered tree is not `super` *)
-Lemma core_head e : core_expr e = true -> exists c r, print_expr e = c :: r /\ is_simple KSuper c = false.
+(* the first printed token of a covered tree starts an expression and is not `super` *)
+Ltac split_and H :=
+  repeat match type of H with
+         | (_ && _)%bool = true => let H2 := fresh "Hc" in apply andb_true_iff in H as [H H2]
+         end.
+
+Lemma core_head e : core_expr e = true ->
+  exists c r, print_expr e = c :: r /\ (is_simple KSuper c = false /\ starter c = true).
 Proof.
   induction e; cbn [core_expr]; intros H; try discriminate;
-    try (eexists; eexists; split; [reflexivity|reflexivity]).
-  - destruct b; eexists; eexists; split; reflexivity.
-  - destruct (IHe H) as (c & r & E & Hc). cbn [print_expr]. rewrite E. eexists; eexists; split; [reflexivity|exact Hc].
-  - apply andb_true_iff in H as [H1 H2]. destruct (IHe1 H1) as (c & r & E & Hc).
-    cbn [print_expr]. rewrite E. eexists; eexists; split; [reflexivity|exact Hc].
-  - destruct op; eexists; eexists; split; reflexivity.
-  - destruct a. eexists; eexists; split; reflexivity.
-  - destruct (IHe H) as (c & r & E & Hc). cbn [print_expr]. rewrite E. eexists; eexists; split; [reflexivity|exact Hc].
+    try (eexists; eexists; split; [reflexivity|split; reflexivity]);
+    try (destruct b; (eexists; eexists; split; [reflexivity|split; reflexivity]));
+    try (destruct op; (eexists; eexists; split; [reflexivity|split; reflexivity]));
+    try (destruct a; (eexists; eexists; split; [reflexivity|split; reflexivity]));
+    split_and H; cbn [print_expr];
+    match goal with
+    | |- exists c r, print_expr ?x ++ _ = _ /\ _ =>
+        match goal with
+        | IH : core_expr x = true -> _ |- _ =>
+            let c := fresh "c" in let r := fresh "r" in let E := fresh "E" in let Hc := fresh "Hh" in
+            destruct (IH H) as (c & r & E & Hc); rewrite E; eexists; eexists; split; [reflexivity|exact Hc]
+        end
+    end.
+Qed.
+
+(* parse_arg's look-ahead `ident =` never fires on a printed expression *)
+Definition named_test (l : list token) : bool :=
+  match l with
+  | c1 :: c2 :: _ => negb (not_ident c1) && is_simple SEq c2
+  | _ => false
+  end.
+
+Lemma named_test_app_single c fo rest : is_simple SEq fo = false -> named_test ([c] ++ fo :: rest) = false.
+Proof. intros H. cbn. rewrite H. apply andb_false_r. Qed.
+
+Lemma named_test_head c r : not_ident c = true -> named_test (c :: r) = false.
+Proof. intros H. destruct r; cbn; [reflexivity|]. rewrite H. reflexivity. Qed.
+
+Lemma not_named e : core_expr e = true -> forall fo rest, is_simple SEq fo = false ->
+  named_test (print_expr e ++ fo :: rest) = false.
+Proof.
+  induction e; cbn [core_expr]; intros H fo rest Hfo; try discriminate;
+    try (cbn [print_expr print_assert app];
+         first [apply named_test_app_single; exact Hfo | apply named_test_head; reflexivity]);
+    try (destruct b; cbn [print_expr print_assert app]; apply named_test_head; reflexivity);
+    try (destruct op; cbn [print_expr print_assert app]; apply named_test_head; reflexivity);
+    try (destruct a; cbn [print_expr print_assert app]; apply named_test_head; reflexivity);
+    split_and H; cbn [print_expr];
+    match goal with
+    | |- named_test ((print_expr ?x ++ ?t :: ?more) ++ _) = false =>
+        match goal with
+        | IH : core_expr x = true -> _ |- _ =>
+            rewrite <- app_assoc; cbn [app]; apply (IH H); try destruct op; reflexivity
+        end
+    | |- named_test ((print_expr ?x ++ ?l) ++ _) = false =>
+        match goal with
+        | IH : core_expr x = true -> _ |- _ =>
+            rewrite <- app_assoc; cbn [app]; apply (IH H); reflexivity
+        end
+    end.
 Qed.
 
 (* follow-token conditions *)
@@ -194,15 +249,203 @@ Qed.
 Lemma steps_fin_le k : (steps_fin k <= 19)%nat.
 Proof. unfold steps_fin. destruct (10 - k)%nat eqn:E; lia. Qed.
 
-Ltac len_tac := cbn [print_expr print_assert]; repeat (progress (repeat rewrite app_length; cbn [List.length])); lia.
+Ltac len_tac := cbn [print_expr print_assert opt_tokens]; repeat (progress (repeat rewrite app_length; cbn [List.length])); lia.
+
+(* ---------------------------------------------------------------- index, slice, call *)
+Lemma peek_named s : (peek_ident 0 s && peek_simple SEq 1 s)%bool = named_test (toks_of s).
+Proof.
+  destruct s as [c r ex dc dm]. unfold peek_ident, peek_simple, peek_tok, toks_of, named_test, not_ident.
+  cbn [cur rest nth_error]. destruct r as [|c2 r]; destruct (tok_kind c); cbn; reflexivity.
+Qed.
+
+Lemma app_r_not_nil {A} (l1 l2 : list A) : l2 <> [] -> l1 ++ l2 <> [].
+Proof. destruct l1; [auto|discriminate]. Qed.
+#[export] Hint Resolve app_r_not_nil : rt.
+
+Section Suffix.
+  Variable pexpr : P expr.
+  Variable L : nat.
+  Hypothesis Hp : pexpr_ok pexpr L.
+
+  Lemma run_pexpr y fo r : core_expr y = true -> wpx 0 true y = true -> (List.length (print_expr y) < L)%nat ->
+    stopper fo = true -> is_simple KElse fo = false ->
+    run pexpr (print_expr y ++ fo :: r) (strip_spans y) (fo :: r).
+  Proof. intros Hc Hw Hl Hs He. apply Hp; [exact Hc|exact Hw|exact Hl|exact Hs|intros _; exact He]. Qed.
+
+  (* the head of a printed expression is missed by eat_simple of a non-starter *)
+  Lemma run_miss_head k add y t : core_expr y = true -> starter_k k = false ->
+    run (eat_simple k add) (print_expr y ++ t) None (print_expr y ++ t).
+  Proof.
+    intros Hc Hk. destruct (core_head y Hc) as (c & r & E & _ & Hst). rewrite E. cbn [app].
+    apply run_eat_miss. apply starter_not; assumption.
+  Qed.
+
+  Lemma run_idx3_some lhs A B y rest : core_expr y = true -> wpx 0 true y = true ->
+    (List.length (print_expr y) < L)%nat -> expr_span lhs = sp0 -> rest <> [] ->
+    run ('(i3, e) <- idx3 pexpr ;; fin_slice lhs A B i3 e) (print_expr y ++ sim SRightBracket :: rest)
+        (ESlice sp0 lhs A B (Some (strip_spans y))) rest.
+  Proof.
+    intros Hc Hw Hl Hs Hr. eapply run_bind.
+    - unfold idx3. eapply run_orelse_miss; [apply run_miss_head; [exact Hc|reflexivity]|].
+      eapply run_bind; [apply run_pexpr; [exact Hc|exact Hw|exact Hl|reflexivity|reflexivity]|].
+      eapply run_bind; [apply run_expect_hit; [reflexivity|exact Hr]|apply run_ret].
+    - cbv beta iota. unfold fin_slice. rewrite Hs. eapply run_bind; [apply run_mk_span0|apply run_ret].
+  Qed.
+
+  Lemma run_fin lhs A B C t : expr_span lhs = sp0 -> run (fin_slice lhs A B C sp0) t (ESlice sp0 lhs A B C) t.
+  Proof. intros Hs. unfold fin_slice. rewrite Hs. eapply run_bind; [apply run_mk_span0|apply run_ret]. Qed.
+
+  Definition ctoks (c : option expr) : list token :=
+    match c with Some c' => sim SColon :: print_expr c' | None => [] end.
+  Definition ocore (o : option expr) : bool := match o with Some y => core_expr y | None => true end.
+  Definition olen (o : option expr) : nat := match o with Some y => List.length (print_expr y) | None => O end.
+
+  (* after the first `:` of a slice *)
+  Lemma run_slice_tail lhs A b c rest : ocore b = true -> ocore c = true ->
+    opt_all (wpx 0 true) b = true -> opt_all (wpx 0 true) c = true ->
+    (olen b < L)%nat -> (olen c < L)%nat -> expr_span lhs = sp0 -> rest <> [] ->
+    run (IFLET e <== eat_simple SRightBracket true THEN fin_slice lhs A None None e ELSE
+         IFLET _ <== eat_simple SColon true THEN ('(i3, e) <- idx3 pexpr ;; fin_slice lhs A None i3 e) ELSE
+         (i2 <- pexpr ;; '(i3, e) <- after2 pexpr ;; fin_slice lhs A (Some i2) i3 e))
+        (opt_tokens print_expr b ++ ctoks c ++ sim SRightBracket :: rest)
+        (ESlice sp0 lhs A (option_map strip_spans b) (option_map strip_spans c)) rest.
+  Proof.
+    intros Hcb Hcc Hwb Hwc Hlb Hlc Hs Hr.
+    destruct b as [b|]; destruct c as [c|]; cbn [opt_tokens ctoks option_map app ocore opt_all olen] in *.
+    - (* b : c ] *)
+      eapply run_orelse_miss; [apply run_miss_head; [exact Hcb|reflexivity]|].
+      eapply run_orelse_miss; [apply run_miss_head; [exact Hcb|reflexivity]|].
+      eapply run_bind; [apply run_pexpr; [exact Hcb|exact Hwb|exact Hlb|reflexivity|reflexivity]|].
+      unfold after2.
+      eapply run_bind.
+      + eapply run_orelse_miss; [apply run_eat_miss; reflexivity|].
+        eapply run_orelse_hit; [apply run_eat_hit; [reflexivity|auto with rt]|].
+        unfold idx3. eapply run_orelse_miss; [apply run_miss_head; [exact Hcc|reflexivity]|].
+        eapply run_bind; [apply run_pexpr; [exact Hcc|exact Hwc|exact Hlc|reflexivity|reflexivity]|].
+        eapply run_bind; [apply run_expect_hit; [reflexivity|exact Hr]|apply run_ret].
+      + cbv beta iota. apply run_fin; exact Hs.
+    - (* b ] *)
+      eapply run_orelse_miss; [apply run_miss_head; [exact Hcb|reflexivity]|].
+      eapply run_orelse_miss; [apply run_miss_head; [exact Hcb|reflexivity]|].
+      eapply run_bind; [apply run_pexpr; [exact Hcb|exact Hwb|exact Hlb|reflexivity|reflexivity]|].
+      unfold after2.
+      eapply run_bind.
+      + eapply run_orelse_hit; [apply run_eat_hit; [reflexivity|exact Hr]|apply run_ret].
+      + cbv beta iota. apply run_fin; exact Hs.
+    - (* : c ] *)
+      eapply run_orelse_miss; [apply run_eat_miss; reflexivity|].
+      eapply run_orelse_hit; [apply run_eat_hit; [reflexivity|auto with rt]|].
+      apply run_idx3_some; assumption.
+    - (* ] *)
+      eapply run_orelse_hit; [apply run_eat_hit; [reflexivity|exact Hr]|]. apply run_fin; exact Hs.
+  Qed.
+
+  Lemma run_index lhs i rest : core_expr i = true -> wpx 0 true i = true ->
+    (List.length (print_expr i) < L)%nat -> expr_span lhs = sp0 -> rest <> [] ->
+    run (parse_index_expr pexpr lhs) (print_expr i ++ sim SRightBracket :: rest) (EIndex sp0 lhs (strip_spans i)) rest.
+  Proof.
+    intros Hc Hw Hl Hs Hr. unfold parse_index_expr. apply run_call.
+    eapply run_orelse_miss; [apply run_miss_head; [exact Hc|reflexivity]|].
+    eapply run_orelse_miss; [apply run_miss_head; [exact Hc|reflexivity]|].
+    eapply run_bind; [apply run_pexpr; [exact Hc|exact Hw|exact Hl|reflexivity|reflexivity]|].
+    eapply run_orelse_hit; [apply run_eat_hit; [reflexivity|exact Hr]|].
+    rewrite Hs. eapply run_bind; [apply run_mk_span0|apply run_ret].
+  Qed.
+
+  Lemma run_slice lhs a b c rest : ocore a = true -> ocore b = true -> ocore c = true ->
+    opt_all (wpx 0 true) a = true -> opt_all (wpx 0 true) b = true -> opt_all (wpx 0 true) c = true ->
+    (olen a < L)%nat -> (olen b < L)%nat -> (olen c < L)%nat -> expr_span lhs = sp0 -> rest <> [] ->
+    run (parse_index_expr pexpr lhs)
+        (opt_tokens print_expr a ++ sim SColon :: opt_tokens print_expr b ++ ctoks c ++ sim SRightBracket :: rest)
+        (ESlice sp0 lhs (option_map strip_spans a) (option_map strip_spans b) (option_map strip_spans c)) rest.
+  Proof.
+    intros Hca Hcb Hcc Hwa Hwb Hwc Hla Hlb Hlc Hs Hr. unfold parse_index_expr. apply run_call.
+    destruct a as [a|]; cbn [opt_tokens option_map app ocore opt_all olen] in *.
+    - eapply run_orelse_miss; [apply run_miss_head; [exact Hca|reflexivity]|].
+      eapply run_orelse_miss; [apply run_miss_head; [exact Hca|reflexivity]|].
+      eapply run_bind; [apply run_pexpr; [exact Hca|exact Hwa|exact Hla|reflexivity|reflexivity]|].
+      eapply run_orelse_miss; [apply run_eat_miss; reflexivity|].
+      eapply run_orelse_hit; [apply run_eat_hit; [reflexivity|auto with rt]|].
+      apply (run_slice_tail lhs (Some (strip_spans a)) b c rest); assumption.
+    - eapply run_orelse_hit; [apply run_eat_hit; [reflexivity|auto with rt]|].
+      apply (run_slice_tail lhs None b c rest); assumption.
+  Qed.
+
+  (* call arguments *)
+  Definition acore (a : arg) : bool := match a with APositional y | ANamed _ y => core_expr y end.
+  Definition alen (a : arg) : nat := List.length (print_arg a).
+
+  Lemma run_arg a fo r : acore a = true -> wp_arg a = true -> (alen a < L)%nat ->
+    stopper fo = true -> is_simple KElse fo = false -> is_simple SEq fo = false ->
+    run (parse_arg pexpr) (print_arg a ++ fo :: r) (strip_arg a) (fo :: r).
+  Proof.
+    intros Hc Hw Hl Hs He Hq. unfold parse_arg. apply run_call. destruct a as [y|name y]; cbn [acore wp_arg print_arg strip_arg] in *.
+    - apply run_if_false.
+      + intros s Es. rewrite peek_named, Es. apply not_named; assumption.
+      + eapply run_bind; [apply run_pexpr; [exact Hc|exact Hw|exact Hl|exact Hs|exact He]|apply run_ret].
+    - cbn [app]. apply run_if_true.
+      + intros s Es. rewrite peek_named, Es. reflexivity.
+      + eapply run_orelse_hit; [unfold id_tok, tk; apply run_eat_ident_hit; auto with rt|].
+        eapply run_orelse_hit; [apply run_eat_hit; [reflexivity|auto with rt]|].
+        eapply run_bind; [apply run_pexpr; [exact Hc|exact Hw|unfold alen in Hl; cbn [print_arg List.length] in Hl; lia|exact Hs|exact He]|apply run_ret].
+  Qed.
+End Suffix.
+
+Lemma run_eat_miss_app k add l t c r : l = c :: r -> is_simple k c = false ->
+  run (eat_simple k add) (l ++ t) None (l ++ t).
+Proof. intros -> H. apply run_eat_miss; exact H. Qed.
+
+Lemma flat_len {A} (f : A -> list token) (l : list A) :
+  (List.length l <= List.length (flat_map (fun y => comma ++ f y) l))%nat.
+Proof. induction l as [|x l IH]; cbn [flat_map List.length]; [lia|]. rewrite !app_length. cbn [comma List.length]. lia. Qed.
+
+Lemma arg_head a : acore a = true -> exists c r, print_arg a = c :: r /\ is_simple SRightParen c = false.
+Proof.
+  destruct a as [y|name y]; cbn [acore print_arg]; intros H.
+  - destruct (core_head y H) as (c & r & E & _ & Hst). exists c, r. split; [exact E|].
+    apply starter_not; [exact Hst|reflexivity].
+  - eexists; eexists; split; reflexivity.
+Qed.
+
+Definition arg_ok (L : nat) (a : arg) : Prop := acore a = true /\ wp_arg a = true /\ (alen a < L)%nat.
+
+Lemma run_args_loop pexpr L (Hp : pexpr_ok pexpr L) : forall more a0 acc fuel rest,
+  (List.length more < fuel)%nat -> Forall (arg_ok L) (a0 :: more) -> rest <> [] ->
+  run (args_loop pexpr fuel acc)
+      (print_arg a0 ++ flat_map (fun y => comma ++ print_arg y) more ++ sim SRightParen :: rest)
+      (acc ++ map strip_arg (a0 :: more), sp0) rest.
+Proof.
+  induction more as [|a1 more IH]; intros a0 acc fuel rest Hf Hall Hr;
+    destruct fuel as [|f]; try (cbn in Hf; lia); cbn [args_loop flat_map app].
+  - inversion Hall as [|? ? (Hc & Hw & Hl) _]; subst.
+    eapply run_bind; [apply (run_arg pexpr L Hp); [exact Hc|exact Hw|exact Hl|reflexivity|reflexivity|reflexivity]|].
+    eapply run_orelse_hit; [apply run_eat_hit; [reflexivity|exact Hr]|]. apply run_ret.
+  - inversion Hall as [|? ? (Hc & Hw & Hl) Hall']; subst.
+    unfold comma at 1. rewrite <- !app_assoc. cbn [app].
+    eapply run_bind; [apply (run_arg pexpr L Hp); [exact Hc|exact Hw|exact Hl|reflexivity|reflexivity|reflexivity]|].
+    eapply run_orelse_miss; [apply run_eat_miss; reflexivity|].
+    eapply run_orelse_hit; [apply run_eat_hit; [reflexivity|auto with rt]|].
+    inversion Hall' as [|? ? (Hc1 & _) _]; subst.
+    destruct (arg_head a1 Hc1) as (c & r & E & Hh).
+    eapply run_orelse_miss; [eapply run_eat_miss_app; [exact E|exact Hh]|].
+    replace (acc ++ map strip_arg (a0 :: a1 :: more)) with ((acc ++ [strip_arg a0]) ++ map strip_arg (a1 :: more))
+      by (rewrite <- app_assoc; reflexivity).
+    apply IH; [cbn in Hf; lia|exact Hall'|exact Hr].
+Qed.
 
 (* suffix chains: from the unary level into the suffix loop of parse_suffix_expr *)
+Definition nots (l : list token) : Prop :=
+  match l with c :: _ => is_simple KTailstrict c = false | [] => True end.
+
 Definition Sform (e : expr) (c m : nat) : Prop :=
   forall pexpr lf f stk rest R t' (X : expr) tf,
     pexpr_ok pexpr (List.length (print_expr e)) -> (List.length (print_expr e) <= lf)%nat -> rest <> [] ->
+    nots rest ->
     run (suffix_loop pexpr (S lf) (S lf - m) (strip_spans e)) rest R t' ->
     run (pe_loop T pexpr (S lf) f (StParsed R) stk) t' X tf ->
     run (pe_loop T pexpr (S lf) (c + f) StUnary stk) (print_expr e ++ rest) X tf.
+
+Ltac norm_app := repeat (progress (rewrite <- ?app_assoc; cbn [app])).
 
 Lemma sform n
   (IH : forall y, (esize y < n)%nat -> core_expr y = true -> forall k last, (k <= 10)%nat ->
@@ -215,7 +458,7 @@ Proof.
     try (cbn [wpx] in Hwp; destruct e3; cbn in Hwp; discriminate);
     try (lazymatch goal with |- exists c m, _ /\ _ /\ Sform ?E c m =>
          exists 3%nat, 0%nat; split; [cbn [print_expr List.length]; lia|]; split; [lia|];
-         intros pexpr lf f stk rest R t' X tf _ _ Hr H1 H2; cbn [print_expr app Nat.add];
+         intros pexpr lf f stk rest R t' X tf _ _ Hr _ H1 H2; cbn [print_expr app Nat.add];
          apply pl_unary_miss; [try destruct b; reflexivity|];
          eapply (pl_primary_atom pexpr lf _ E); [reflexivity|exact Hr|];
          rewrite Nat.sub_0_r in H1; eapply pl_parsed_suffix_gen; [exact H1|exact H2] end).
@@ -223,7 +466,7 @@ Proof.
     cbn [wpx] in Hwp. cbn [esize] in Hsz.
     destruct (IH e ltac:(lia) Hcore 0%nat true ltac:(lia) Hwp) as (cx & Hbx & Hx).
     exists (S (S (cx + 3))), 0%nat. split; [len_tac|]. split; [lia|].
-    intros pexpr lf f stk rest R t' X tf Hp Hlf Hr H1 H2.
+    intros pexpr lf f stk rest R t' X tf Hp Hlf Hr _ H1 H2.
     cbn [print_expr strip_spans app]. rewrite <- app_assoc. cbn [app Nat.add].
     apply pl_unary_miss; [reflexivity|].
     apply pl_primary_paren; [auto with rt|].
@@ -238,15 +481,110 @@ Proof.
     cbn [wpx] in Hwp. cbn [esize] in Hsz.
     destruct (IHe ltac:(lia) Hcore Hwp) as (c & m & Hbc & Hbm & HS).
     exists c, (S m). split; [len_tac|]. split; [len_tac|].
-    intros pexpr lf f stk rest R t' X tf Hp Hlf Hr H1 H2.
+    intros pexpr lf f stk rest R t' X tf Hp Hlf Hr Hts H1 H2.
     cbn [print_expr strip_spans]. rewrite <- app_assoc. cbn [app].
     assert (Hl : (List.length (print_expr e) + 2 <= lf)%nat) by (revert Hlf; len_tac).
-    eapply HS; [eapply pexpr_ok_mono; [exact Hp|len_tac]|lia|discriminate| |exact H2].
+    eapply HS; [eapply pexpr_ok_mono; [exact Hp|len_tac]|lia|discriminate|reflexivity| |exact H2].
     replace (S lf - m)%nat with (S (S lf - S m)) by lia. cbn [suffix_loop].
     eapply run_orelse_hit; [apply run_eat_hit; [reflexivity|discriminate]|].
     eapply run_bind; [unfold id_tok, tk; apply run_expect_ident_hit; exact Hr|].
     rewrite strip_span0. eapply run_bind; [apply run_mk_span0|]. exact H1.
+  - (* EIndex *)
+    cbn [wpx] in Hwp. cbn [esize] in Hsz. apply andb_true_iff in Hwp as [Hwx Hwi].
+    apply andb_true_iff in Hcore as [Hcx Hci].
+    destruct (IHe1 ltac:(lia) Hcx Hwx) as (c & m & Hbc & Hbm & HS).
+    exists c, (S m). split; [len_tac|]. split; [len_tac|].
+    intros pexpr lf f stk rest R t' X tf Hp Hlf Hr Hts H1 H2.
+    cbn [print_expr strip_spans]. norm_app.
+    assert (Hl : (List.length (print_expr e1) + 2 <= lf)%nat) by (revert Hlf; len_tac).
+    eapply HS; [eapply pexpr_ok_mono; [exact Hp|len_tac]|lia|discriminate|reflexivity| |exact H2].
+    replace (S lf - m)%nat with (S (S lf - S m)) by lia. cbn [suffix_loop].
+    eapply run_orelse_miss; [apply run_eat_miss; reflexivity|].
+    eapply run_orelse_hit; [apply run_eat_hit; [reflexivity|auto with rt]|].
+    eapply run_bind; [|exact H1].
+    apply (run_index pexpr _ Hp); [exact Hci|exact Hwi|len_tac|apply strip_span0|exact Hr].
+  - (* ESlice *)
+    cbn [wpx] in Hwp. cbn [esize] in Hsz.
+    apply andb_true_iff in Hwp as [Hwp Hwc]. apply andb_true_iff in Hwp as [Hwp Hwb].
+    apply andb_true_iff in Hwp as [Hwx Hwa].
+    apply andb_true_iff in Hcore as [Hcore Hcc]. apply andb_true_iff in Hcore as [Hcore Hcb].
+    apply andb_true_iff in Hcore as [Hcx Hca].
+    destruct (IHe ltac:(lia) Hcx Hwx) as (c0 & m & Hbc & Hbm & HS).
+    exists c0, (S m). split; [len_tac|]. split; [len_tac|].
+    intros pexpr lf f stk rest R t' X tf Hp Hlf Hr Hts H1 H2.
+    cbn [print_expr strip_spans]. norm_app.
+    assert (Hl : (List.length (print_expr e) + 2 <= lf)%nat) by (revert Hlf; len_tac).
+    eapply HS; [eapply pexpr_ok_mono; [exact Hp|len_tac]|lia|discriminate|reflexivity| |exact H2].
+    replace (S lf - m)%nat with (S (S lf - S m)) by lia. cbn [suffix_loop].
+    eapply run_orelse_miss; [apply run_eat_miss; reflexivity|].
+    eapply run_orelse_hit; [apply run_eat_hit; [reflexivity|auto with rt]|].
+    eapply run_bind; [|exact H1].
+    change (match c with Some c' => sim SColon :: print_expr c' | None => [] end) with (ctoks c).
+    apply (run_slice pexpr _ Hp); try assumption; try apply strip_span0;
+      [destruct a; cbn [olen]; len_tac|destruct b; cbn [olen]; len_tac|destruct c; cbn [olen]; len_tac].
+  - (* ECall *)
+    cbn [wpx] in Hwp. cbn [esize] in Hsz. apply andb_true_iff in Hwp as [Hwx Hwa].
+    apply andb_true_iff in Hcore as [Hcx Hca].
+    destruct (IHe ltac:(lia) Hcx Hwx) as (c & m & Hbc & Hbm & HS).
+    exists c, (S m). split; [len_tac|]. split; [len_tac|].
+    intros pexpr lf f stk rest R t' X tf Hp Hlf Hr Hts H1 H2.
+    cbn [print_expr strip_spans]. norm_app.
+    assert (Hl : (List.length (print_expr e) + 2 <= lf)%nat) by (revert Hlf; len_tac).
+    eapply HS; [eapply pexpr_ok_mono; [exact Hp|len_tac]|lia|discriminate|reflexivity| |exact H2].
+    replace (S lf - m)%nat with (S (S lf - S m)) by lia. cbn [suffix_loop].
+    eapply run_orelse_miss; [apply run_eat_miss; reflexivity|].
+    eapply run_orelse_miss; [apply run_eat_miss; reflexivity|].
+    eapply run_orelse_hit; [apply run_eat_hit; [reflexivity|auto with rt]|].
+    assert (Hargs : Forall (arg_ok (List.length (print_expr (ECall sp e args tailstrict)))) args).
+    { apply Forall_forall. intros a Hin. rewrite forallb_forall in Hca, Hwa.
+      split; [apply (Hca a Hin)|]. split; [apply (Hwa a Hin)|].
+      unfold alen.
+      assert (Hle : (List.length (print_arg a) <= List.length (sep_by comma print_arg args))%nat); [|revert Hle; len_tac].
+      clear -Hin. unfold sep_by. destruct args as [|a0 more]; [destruct Hin|].
+      rewrite app_length. destruct Hin as [->|Hin]; [lia|].
+      induction more as [|a1 more IHm]; [destruct Hin|]. cbn [flat_map]. rewrite !app_length.
+      destruct Hin as [->|Hin]; [lia|]. specialize (IHm Hin). lia. }
+    assert (Htail : forall args' t0,
+      t0 = (if tailstrict then [sim KTailstrict] else []) ++ rest ->
+      args' = map strip_arg args ->
+      run (ts <- eat_simple KTailstrict true ;;
+           sp1 <- mk_span (expr_span (strip_spans e)) (match ts with Some t => t | None => sp0 end) ;;
+           suffix_loop pexpr (S lf) (S lf - S m) (ECall sp1 (strip_spans e) args' (is_some ts))) t0 R t').
+    { intros args' t0 -> ->. destruct tailstrict; cbn [app].
+      + eapply run_bind; [apply run_eat_hit; [reflexivity|exact Hr]|].
+        cbv beta iota. rewrite strip_span0. eapply run_bind; [apply run_mk_span0|]. exact H1.
+      + destruct rest as [|c0 rest0]; [congruence|]. cbn in Hts.
+        eapply run_bind; [apply run_eat_miss; exact Hts|].
+        cbv beta iota. rewrite strip_span0. eapply run_bind; [apply run_mk_span0|]. exact H1. }
+    unfold sep_by. destruct args as [|a0 more].
+    + cbn [app]. eapply run_bind.
+      * eapply run_orelse_hit; [apply run_eat_hit; [reflexivity|destruct tailstrict; [discriminate|exact Hr]]|apply run_ret].
+      * cbv beta iota. apply Htail; reflexivity.
+    + inversion Hargs as [|? ? (Hc0 & _) _]; subst.
+      destruct (arg_head a0 Hc0) as (ch & rh & Eh & Hh).
+      rewrite <- !app_assoc. eapply run_bind.
+      * eapply run_orelse_miss; [eapply run_eat_miss_app; [exact Eh|exact Hh]|].
+        unfold parse_args. apply run_call.
+        eapply run_orelse_miss; [eapply run_eat_miss_app; [exact Eh|exact Hh]|].
+        apply (run_args_loop pexpr _ Hp); [pose proof (flat_len print_arg more) as Hfl; cbn [print_expr] in Hlf; unfold sep_by in Hlf; revert Hlf Hfl; len_tac|exact Hargs|destruct tailstrict; [discriminate|exact Hr]].
+      * cbv beta iota. apply Htail; reflexivity.
   - (* EBinary *) cbn [wpx] in Hwp. destruct op; cbn in Hwp; discriminate.
+Qed.
+
+Lemma suffix_case n
+  (IH : forall y, (esize y < n)%nat -> core_expr y = true -> forall k last, (k <= 10)%nat ->
+        wpx k last y = true -> exists c, (c <= 40 * List.length (print_expr y))%nat /\ Bform k last y c)
+  e k last : (esize e <= n)%nat -> core_expr e = true -> wpx lv_postfix false e = true -> (k <= 10)%nat ->
+  exists c, (c <= 40 * List.length (print_expr e))%nat /\ Bform k last e c.
+Proof.
+  intros Hsz Hcore Hw11 Hk. pose proof (steps_fin_le k) as Hfin.
+  destruct (sform n IH e Hsz Hcore Hw11) as (c & m & Hbc & Hbm & HS).
+  exists ((10 - k) + c + steps_fin k)%nat. split; [lia|].
+  apply wrap; [exact Hk|].
+  intros pexpr lf f stk fo r x tf Hp Hlf Hn _ _ H.
+  destruct (nosfx_inv fo Hn) as (_ & _ & _ & _ & Hts).
+  eapply HS; [exact Hp|exact Hlf|discriminate|exact Hts| |exact H].
+  replace (S lf - m)%nat with (S (lf - m)) by lia. apply suffix_none; exact Hn.
 Qed.
 
 Theorem rt_main : forall n e, (esize e < n)%nat -> core_expr e = true ->
@@ -275,14 +613,10 @@ Proof.
     apply pl_rhs_none; [reflexivity|].
     apply pl_parsed_paren; [discriminate|].
     apply pl_parsed_suffix_none; [exact Hn|exact H].
-  - (* EField *)
-    assert (Hw11 : wpx lv_postfix false (EField sp e name) = true) by (cbn [wpx] in Hwp |- *; exact Hwp).
-    destruct (sform n IH (EField sp e name) ltac:(lia) Hcore Hw11) as (c & m & Hbc & Hbm & HS).
-    exists ((10 - k) + c + steps_fin k)%nat. split; [lia|].
-    apply wrap; [exact Hk|].
-    intros pexpr lf f stk fo r x tf Hp Hlf Hn _ _ H.
-    eapply HS; [exact Hp|exact Hlf|discriminate| |exact H].
-    replace (S lf - m)%nat with (S (lf - m)) by lia. apply suffix_none; exact Hn.
+  - (* EField *) apply (suffix_case n IH); [cbn [esize] in *; lia|exact Hcore|exact Hwp|exact Hk].
+  - (* EIndex *) apply (suffix_case n IH); [cbn [esize] in *; lia|exact Hcore|exact Hwp|exact Hk].
+  - (* ESlice *) apply (suffix_case n IH); [cbn [esize] in *; lia|exact Hcore|exact Hwp|exact Hk].
+  - (* ECall *) apply (suffix_case n IH); [cbn [esize] in *; lia|exact Hcore|exact Hwp|exact Hk].
   - (* EIf *)
     cbn [esize] in Hsz.
     assert (Hlast : last = true) by (cbn [wpx] in Hwp; destruct e3, last; cbn in Hwp; congruence).
@@ -339,7 +673,7 @@ Proof.
               |intros _; destruct op; reflexivity|].
     unfold exit_. replace (j <? 10)%nat with true by (symmetry; apply Nat.ltb_lt; lia).
     cbn [Nat.add].
-    destruct (core_head e2 Hc2) as (ch & rh & Eh & Hh).
+    destruct (core_head e2 Hc2) as (ch & rh & Eh & Hh & _).
     apply pl_rhs_op; [auto with rt| rewrite Eh; exact Hh |].
     apply H2; [eapply pexpr_ok_mono; [exact Hp|len_tac]| revert Hlf; len_tac
               | destruct last; cbn in Hfc |- *; [exact Hfc|split; [tauto|apply (noop_above_mono k); [tauto|lia]]]
